@@ -115,6 +115,8 @@ def harness_regen(ctx, sub, outfile):
 
 
 def lake_build(ctx, targets):
+    import gen_registry
+    gen_registry.main()
     t = time.time()
     rc, out = sh(['lake', 'build'] + targets, cwd=LEAN)
     ctx.timing['lake_build'] = ctx.timing.get('lake_build', 0) + round(time.time() - t, 2)
@@ -205,7 +207,7 @@ def run_driver(lines, mode=None):
     chunks = [[] for _ in range(n)]
     for k, i in enumerate(order):
         chunks[k % n].append(i)
-    args = [drv] + ([mode] if mode else [])
+    args = [drv] + ([mode] if mode else [])   # mode ∈ None | --spec | --prop | --kf
 
     def work(idx):
         inp = '\n'.join(lines[i] for i in idx) + '\n'
@@ -300,7 +302,7 @@ def shrink(line, still_fails, budget=40):
     return ' '.join(toks)
 
 
-def correspond(ctx, fam, spec_mode=False, shrinkable=True):
+def correspond(ctx, fam, spec_mode=False, prop_mode=False, shrinkable=True):
     """run one family; compare impl vs model (and vs spec when asked). Returns counts."""
     ops_c = corpus_lines(fam)
     ops, impl, stats = run_family(ctx, fam)
@@ -342,33 +344,29 @@ def correspond(ctx, fam, spec_mode=False, shrinkable=True):
                 ctx.log('shrink failed', e)
         ctx.fail('corr', f'correspondence family {fam}: implementation and model differ on {ndiff} of {len(ops)} operations',
                  family=fam, op=o, impl=a, model=b)
+    bad = []   # (op, impl, demanded) for every operation on which the property fails on the implementation
     if spec_mode:
         t = time.time()
         spec = run_driver(ops, mode='--spec')
         ctx.timing[f'spec_{fam}'] = round(time.time() - t, 2)
-        bad = [(o, a, s) for o, a, s in zip(ops, impl, spec) if s != 'n/a' and a != s]
+        bad += [(o, a, s) for o, a, s in zip(ops, impl, spec) if s != 'n/a' and a != s]
         ctx.cov['families'][fam]['spec_checked'] = sum(1 for s in spec if s != 'n/a')
-        ctx.cov['families'][fam]['spec_failures'] = len(bad)
-        if bad:
-            o, a, s = min(bad, key=lambda x: (x[0].split(' ')[0].endswith('x'), len(x[0])))
-            if shrinkable:
-                def still2(cands):
-                    ia = run_harness_exec(cands); sa = run_driver(cands, mode='--spec')
-                    return [x != y and x != 'bad-op' and y not in ('bad-op', 'n/a') for x, y in zip(ia, sa)]
-                try:
-                    o2 = shrink(o, still2)
-                    a, s = run_harness_exec([o2])[0], run_driver([o2], mode='--spec')[0]
-                    o = o2
-                except Exception as e:
-                    ctx.log('shrink failed', e)
-            ctx.fail('prop', f'property fails on the implementation (family {fam}): the specification demands a different observable on {len(bad)} operations',
-                     family=fam, op=o, impl=a, spec=s)
+    if prop_mode:
+        t = time.time()
+        verdict = run_driver([o + '\t' + a for o, a in zip(ops, impl)], mode='--prop')
+        ctx.timing[f'prop_{fam}'] = round(time.time() - t, 2)
+        bad += [(o, a, v) for o, a, v in zip(ops, impl, verdict) if v not in ('n/a', 'ok')]
+        ctx.cov['families'][fam]['prop_checked'] = sum(1 for v in verdict if v != 'n/a')
+    ctx.cov['families'][fam]['property_failures'] = len(bad)
+    if bad:
+        triage(ctx, fam, bad, dict(zip(ops, zip(impl, model))), spec_mode, prop_mode, shrinkable)
     return ops, impl, model
 
 
 # ---------------------------------------------------------------- known findings
 
 def load_known(prop):
+    """entries of /verif/known_findings.jsonl for this property (never written at run time)"""
     p = os.path.join(ROOT, 'known_findings.jsonl')
     res = []
     if os.path.exists(p):
@@ -380,6 +378,72 @@ def load_known(prop):
             if d.get('property') == prop:
                 res.append(d)
     return res
+
+
+def prop_fails(ops, spec_mode=True, prop_mode=True):
+    """does the property fail on the implementation for these operation lines? → list of (bool, impl, demanded)"""
+    impl = run_harness_exec(ops)
+    res = [(False, a, '') for a in impl]
+    if spec_mode:
+        spec = run_driver(ops, mode='--spec')
+        res = [(r[0] or (s not in ('n/a', 'bad-op') and a != s and a != 'bad-op'), a, s if s != 'n/a' else r[2]) for r, a, s in zip(res, impl, spec)]
+    if prop_mode:
+        v = run_driver([o + '\t' + a for o, a in zip(ops, impl)], mode='--prop')
+        res = [(r[0] or (x not in ('n/a', 'ok', 'bad-op') and a != 'bad-op'), a, x if x not in ('n/a', 'ok') else r[2]) for r, a, x in zip(res, impl, v)]
+    return res
+
+
+def triage(ctx, fam, bad, by_op, spec_mode, prop_mode, shrinkable):
+    """attribute property failures to listed open findings (class predicate evaluated by the Lean driver,
+    and only when the model reproduces the implementation's answer); everything else is a violation"""
+    open_ids = {k['id']: k for k in load_known(ctx.prop) if k.get('status') == 'open'}
+    classes = run_driver([o for o, _, _ in bad], mode='--kf')
+    unexplained = []
+    for (o, a, d), cl in zip(bad, classes):
+        ids = [c for c in cl.split(',') if c and c != '-']
+        im = by_op.get(o, (None, None))
+        hit = [c for c in ids if c in open_ids]
+        if hit and im[0] == im[1]:
+            ctx.cov.setdefault('attributed', {}).setdefault(hit[0], 0)
+            ctx.cov['attributed'][hit[0]] += 1
+        else:
+            unexplained.append((o, a, d, cl))
+    if not unexplained:
+        return
+    o, a, d, cl = min(unexplained, key=lambda x: (x[0].split(' ')[0].endswith('x'), len(x[0])))
+    if shrinkable:
+        def still(cands):
+            r = prop_fails(cands, spec_mode, prop_mode)
+            k = run_driver(cands, mode='--kf')
+            return [x[0] and not any(c in open_ids for c in kk.split(',')) for x, kk in zip(r, k)]
+        try:
+            o2 = shrink(o, still)
+            r = prop_fails([o2], spec_mode, prop_mode)[0]
+            if r[0]:
+                o, a, d = o2, r[1], r[2]
+        except Exception as e:
+            ctx.log('shrink failed', e)
+    ctx.fail('prop', f'property fails on the implementation (family {fam}) on {len(unexplained)} operations not covered by a listed finding',
+             family=fam, op=o, impl=a, demanded=d, model=run_driver([o])[0])
+
+
+def report_known(ctx, spec):
+    """replay the witness of every listed open finding; print KNOWN-FINDING for those that still fail"""
+    for k in load_known(ctx.prop):
+        if k.get('status') != 'open':
+            continue
+        w = k.get('witness')
+        if not w:
+            continue
+        r = prop_fails([w])[0]
+        cl = run_driver([w], mode='--kf')[0]
+        model = run_driver([w])[0]
+        if r[0] and k['id'] in cl.split(',') and model == r[1]:
+            ctx.known.append(f"{k['id']} {k['what']}")
+        elif r[0]:
+            ctx.fail('prop', f"witness of {k['id']} fails in a way the model does not reproduce (class {cl})", op=w, impl=r[1], model=model, demanded=r[2])
+        else:
+            ctx.log(f"note: witness of listed finding {k['id']} no longer fails on this tree")
 
 
 # ---------------------------------------------------------------- decide / evidence
@@ -491,6 +555,8 @@ def run_check(prop, tier, seed):
         return 2
     spec = PROPS[prop]
     ctx = Ctx(prop, tier, seed)
+    from props import REGEN_EXTRA
+    REGEN.update(REGEN_EXTRA)
     proof = dict(obligations=0, discharged=0)
     try:
         if build_tools(ctx) and build_harness(ctx):
@@ -502,13 +568,12 @@ def run_check(prop, tier, seed):
                 for fam in spec.get('families', []):
                     if isinstance(fam, str):
                         fam = dict(name=fam)
-                    correspond(ctx, fam['name'], spec_mode=fam.get('spec', False), shrinkable=fam.get('shrink', True))
+                    correspond(ctx, fam['name'], spec_mode=fam.get('spec', False), prop_mode=fam.get('prop', False), shrinkable=fam.get('shrink', True))
                 hook = spec.get('extra')
                 if hook:
                     hook(ctx, spec)
-        post = spec.get('triage')
-        if post:
-            post(ctx, spec)
+        if not any(f['kind'] == 'tool' for f in ctx.failures):
+            report_known(ctx, spec)
     except Exception as e:  # the check itself broke: never a silent pass
         import traceback
         ctx.fail('tool', f'check crashed: {e!r}', detail=traceback.format_exc()[-3000:])
@@ -522,9 +587,11 @@ def run_replay(prop, path):
     op = d.get('op')
     if not op:
         print(json.dumps(d, indent=1)); return 0
-    impl = run_harness_exec([op])[0]; model = run_driver([op])[0]; spec = run_driver([op], mode='--spec')[0]
-    print('op   :', op); print('impl :', impl); print('model:', model); print('spec :', spec)
-    return 0 if impl == model and (spec == 'n/a' or spec == impl) else 1
+    r = prop_fails([op])[0]
+    model = run_driver([op])[0]
+    print('op      :', op); print('impl    :', r[1]); print('model   :', model); print('property:', 'FAILS, demanded ' + r[2] if r[0] else 'holds')
+    print('kf-class:', run_driver([op], mode='--kf')[0])
+    return 1 if r[0] or r[1] != model else 0
 
 
 def main(argv):
